@@ -11,8 +11,23 @@ import z3
 _CURRENT = None
 
 BRANCH_TIMEOUT_MS = int(os.environ.get("PYVC_BRANCH_TIMEOUT_MS", "3000"))
-PROVE_TIMEOUT_MS = int(os.environ.get("PYVC_PROVE_TIMEOUT_MS", "20000"))
+PROVE_TIMEOUT_MS = int(os.environ.get("PYVC_PROVE_TIMEOUT_MS", "30000" if os.environ.get("VERIF_TIER") == "thorough" else "10000"))
 MAX_PATHS = int(os.environ.get("PYVC_MAX_PATHS", "4000"))
+
+
+def _checked(solver, *assumptions, budget_ms):
+    """solver.check with a hard wall-clock stop: z3's own timeout is not honoured inside some tactics."""
+    import threading
+
+    t = threading.Timer(budget_ms / 1000.0 + 2.0, solver.ctx.interrupt)
+    t.daemon = True
+    t.start()
+    try:
+        return solver.check(*assumptions)
+    except z3.Z3Exception:
+        return z3.unknown
+    finally:
+        t.cancel()
 
 
 def current() -> "Path":
@@ -213,7 +228,7 @@ class Path:
         """May `pc and f` be satisfiable?  unknown counts as yes (sound: more paths)."""
         if self.scope_depth:
             return self.solver.check(f) != z3.unsat
-        r = self.qf.check(f)
+        r = _checked(self.qf, f, budget_ms=BRANCH_TIMEOUT_MS)
         return r != z3.unsat
 
     def branch(self, cond) -> bool:
@@ -306,7 +321,7 @@ class Path:
         s.set("timeout", PROVE_TIMEOUT_MS)
         s.push()
         s.add(z3.Not(f))
-        r = s.check()
+        r = _checked(s, budget_ms=PROVE_TIMEOUT_MS)
         model = s.model() if r == z3.sat else None
         smt2 = None
         backend = "z3"
@@ -316,7 +331,10 @@ class Path:
         s.pop()
         s.set("timeout", BRANCH_TIMEOUT_MS)
         status = "proved" if r == z3.unsat else ("failed" if r == z3.sat else "unknown")
-        if status == "unknown":
+        first_ms = (time.time() - t0) * 1e3
+        if status == "unknown" and first_ms > 0.6 * PROVE_TIMEOUT_MS:
+            assertions = []  # it ran out of time rather than giving up: same-budget retries would only repeat that
+        if status == "unknown" and assertions:
             # robustness ladder: quantifier instantiation is heuristic, so retry the *same* query on fresh solvers with
             # different seeds, then on cvc5.  Only unsat/sat answers count; unknown stays unknown.
             for seed in (1, 7, 42):
@@ -324,7 +342,7 @@ class Path:
                 s2.set("timeout", PROVE_TIMEOUT_MS)
                 s2.set("random_seed", seed)
                 s2.add(*assertions)
-                r2 = s2.check()
+                r2 = _checked(s2, budget_ms=PROVE_TIMEOUT_MS)
                 if r2 == z3.unsat:
                     status, backend = "proved", f"z3(fresh solver, seed {seed})"
                     break
@@ -332,7 +350,7 @@ class Path:
                     status, backend, model = "failed", f"z3(fresh solver, seed {seed})", s2.model()
                     break
         if status == "unknown" and smt2 is not None:
-            r2 = cvc5_check(smt2, PROVE_TIMEOUT_MS / 1000.0)
+            r2 = cvc5_check(smt2, min(10.0, PROVE_TIMEOUT_MS / 1000.0))
             if r2 == "unsat":
                 status, backend = "proved", "cvc5"
             elif r2 == "sat":
